@@ -22,12 +22,12 @@ GEN_LOG = {
                      FormsM=FORMS_M, ThinBD=3, ThinB=97, ThinMD=13, ThinM=173, BigSet="{30, 60}", ThinS=6, ThinP=2, Mix="TRUE"),
 }
 GEN_GLM = {
-    "quick": dict(NGlm="{4}", XMax=2, YSet="{1, 2, 4}", ThinD=1, Thin=331),
-    "thorough": dict(NGlm="{3, 4, 5}", XMax=3, YSet="{1, 2, 3, 4}", ThinD=41, Thin=127),
+    "quick": dict(NGlm="{4}", XMax=2, YSet="{1, 2, 4}", ThinD=1, Thin=331, UnitCodes="{1, 2, 3, 4}", ThinU=601),
+    "thorough": dict(NGlm="{3, 4, 5}", XMax=3, YSet="{1, 2, 3, 4}", ThinD=41, Thin=127, UnitCodes="{1, 2, 3, 4}", ThinU=211),
 }
 CODING_INVS = ["InvBinCoding", "InvBinErrors", "InvMultiCoding"]
 NUM_INVS = ["InvNumOrigin", "InvNumFlip", "InvNumSoftmax"]
-GLM_INVS = ["InvTermAtZero", "InvTermIdentity", "InvTermSign", "InvOriginLog"]
+GLM_INVS = ["InvTermAtZero", "InvTermIdentity", "InvTermSign", "InvOriginLog", "InvUnits"]
 TRACE_LOG_CONST = dict(MaxN=0, MaxL=1)
 TRACE_GLM_CONST = dict(MaxY=1)
 
@@ -72,7 +72,7 @@ def random_cases(ctx, count):
             else:
                 y, yd = [r.randint(1, 4) for _ in range(n)], 1
             out.append({"kind": "glm", "inp": {"x": x, "p": p, "q": [[0] * p, [2] + [1] * (p - 1)], "y": y, "yd": yd, "pn": pn,
-                                              "pd": pd, "link": link, "an": r.choice([0, 1, 10]), "ad": 10, "icpt": icpt,
+                                              "pd": pd, "link": link, "an": r.choice([0, 1, 10]), "ad": 10, "icpt": icpt, "ue": 0,
                                               "maxit": 2000, "te": te}})
             continue
         K = 2 if kind == "bin" else r.randint(2, 6)
